@@ -310,8 +310,10 @@ fn format_lambda(args: &[LambdaArg], body: &SpannedExpr, max_cols: usize, indent
         );
     }
 
-    // Try single-line first for other body types
-    let single_line_body = format_expr_impl(body, max_cols, indent);
+    // Try single-line first for other body types. (The single-line form of the body is all that
+    // can fit here; formatting the body fully at this point and again below would double the work
+    // at every nesting level - exponential for nested lambdas.)
+    let single_line_body = format_single_line(body);
     let single_line = format!("{} {}", args_part, single_line_body);
 
     // Check only if it's actually single-line and fits
@@ -510,14 +512,10 @@ fn format_binary_op_multiline(
             }
         }
 
-        // If it doesn't fit, break before the operator (keep operator with right operand)
+        // If it doesn't fit, break before the operator (keep operator with right operand).
+        // The right operand was already formatted at this indentation above.
         let continued_indent = indent;
-        let right_formatted = format_expr_impl(right, max_cols, continued_indent);
-        let right_formatted = if right_needs_parens {
-            format!("({})", right_formatted)
-        } else {
-            right_formatted
-        };
+        let right_formatted = right_str;
         return format!(
             "{}\n{}{} {}",
             left_str,
